@@ -10,3 +10,6 @@ for id in "$@"; do
   echo "$out" | grep -A1 '^VIOLATION' | head -4
 done
 git -C /repo checkout -- . 
+# leave /verif/target/release/yv built from the clean tree again (a later direct use of the binary
+# must not be the seeded build)
+(cd /verif/harness && CARGO_NET_OFFLINE=true cargo build --release --quiet 2>/dev/null)
